@@ -171,8 +171,13 @@ def states_job(params):
             sites = Structure(Lattice(M), ['Li'] * 3, [[0.1, 0.1, 0.1], [0.5, 0.1, 0.1], [0.1, 0.5, 0.5]], labels=SITE_LABELS)
             trans = gtr.Transitions.__new__(gtr.Transitions)
             trans.trajectory, trans.sites, trans.states = tr, sites, st
-            trans.diff_trajectory = None
             try:
+                trans.diff_trajectory = tr.filter('Li')
+                if params.get('history'):
+                    # read-only displacement queries made earlier on the same objects (they switch the internal representation)
+                    trans.diff_trajectory.displacements
+                    if params['history'] == 'both':
+                        tr.displacements
                 rdfs = gr.radial_distribution(transitions=trans, floating_specie='Li', max_dist=md, resolution=res)
             except Exception as e:
                 event(f'exception:{type(e).__name__}', detail=str(e)[:200])
@@ -237,7 +242,8 @@ def states_job(params):
                 prove('every pair within the cut-off is counted in exactly one state and one distance bin', tot == core.ssum(within))
             sample(dict(T=T, lattice=lat, states=sorted(rdfs)))
 
-    return symbolic_job(params, body, states_job_replay, timeout_ms=300000)
+    sp = params.get('split')
+    return symbolic_job(params, body, states_job_replay, timeout_ms=300000, split=tuple(sp) if sp else None)
 
 
 def states_job_replay(params, inputs):
@@ -255,7 +261,11 @@ def states_job_replay(params, inputs):
     tr = _traj(gt, ['Li', 'S', 'Si'], np.array([[xs[t], other, other2] for t in range(T)]), M)
     sites = Structure(Lattice(M), ['Li'] * 3, [[0.1, 0.1, 0.1], [0.5, 0.1, 0.1], [0.1, 0.5, 0.5]], labels=SITE_LABELS)
     trans = gtr.Transitions.__new__(gtr.Transitions)
-    trans.trajectory, trans.sites, trans.states, trans.diff_trajectory = tr, sites, st, None
+    trans.trajectory, trans.sites, trans.states, trans.diff_trajectory = tr, sites, st, tr.filter('Li')
+    if params.get('history'):
+        trans.diff_trajectory.displacements
+        if params['history'] == 'both':
+            tr.displacements
     rdfs = gr.radial_distribution(transitions=trans, floating_specie='Li', max_dist=md, resolution=res)
     nb = int(round(md / res)) + 1
     exp = {}
@@ -314,6 +324,15 @@ def jobs(tier, seed):
     for lat, oth, md, res, fr in bj:
         js.append(dict(name=f'between_{lat}_{len(oth)}other_md{md}_res{res}_F{fr}', fn='between_job',
                        params=dict(lattice=lat, others=oth, max_dist=md, resolution=res, frames=fr)))
+    D = 2   # each states job is explored as 2^D sub-jobs (split on the first D free decisions)
     for lat, T, md, res in sj:
-        js.append(dict(name=f'states_{lat}_T{T}', fn='states_job', params=dict(lattice=lat, T=T, max_dist=md, resolution=res)))
+        for i in range(2 ** D):
+            js.append(dict(name=f'states_{lat}_T{T}_part{i}of{2 ** D}', fn='states_job',
+                           params=dict(lattice=lat, T=T, max_dist=md, resolution=res, split=[i, D])))
+    # ('both' = also the full trajectory's displacements first: exploration works but the solver returns unknown on the
+    # re-wrapped coordinates, so it is not part of any tier)
+    for lat, T, md, res, h in [('cubic5', 2, 2.0, 1.0, 'diff')]:
+        for i in range(2 ** D):
+            js.append(dict(name=f'states_{lat}_T{T}_after_displacements_{h}_part{i}of{2 ** D}', fn='states_job',
+                           params=dict(lattice=lat, T=T, max_dist=md, resolution=res, history=h, split=[i, D])))
     return js
